@@ -361,7 +361,9 @@ func spec_decoded(path string, k int, v any) bool {
 //@ func New
 //@   modifies ghost_exists(filepath.Join(strings.ReplaceAll(cfg.Params["path"], "$", ":"), "mail"))
 //@   ensures[opened] ret1 == nil ==> ret0 != nil
-//@   serves C10 C11
+//@   ensures[configuredCap C08] ret1 == nil ==> ret0.(*Store) != nil && ret0.(*Store).messageCap == cfg.MailboxMsgCap && ret0.(*Store).extHost == extHost &&
+//@      ret0.(*Store).mailPath == filepath.Join(strings.ReplaceAll(cfg.Params["path"], "$", ":"), "mail")
+//@   serves C10 C11 C08
 
 //@ pred spec_storeOK(fs *Store) bool = fs != nil && fs.extHost != nil && fs.extHost.Events != nil
 
